@@ -109,9 +109,9 @@ ConfDone == l > Len(TraceLog) /\ (skip \/ ~AtInternal(st))
 MonStep ==
     /\ ConfDone /\ lm <= Len(TraceLog)
     /\ LET e   == TraceLog[lm]
-           tk2 == TkStep(tk, e)
-           f   == Checks(tk, e, tk2)
-       IN  /\ tk' = tk2
+           j   == Judge(tk, e)
+           f   == j.findings
+       IN  /\ tk' = j.tk
            /\ lm' = lm + 1
            /\ bad' = bad \cup {<<x[1], lm, x[2]>> : x \in {y \in f : ~\E b \in bad : b[1] = y[1]}}
     /\ UNCHANGED <<st, l, rej, done, skip>>
